@@ -214,6 +214,10 @@ func genWfList(rng *rand.Rand, maxCert int) ([]byte, string) {
 		default:
 			dl = 1 + rng.Intn(maxCert)
 		}
+		if maxCert >= 1000 && rng.Intn(60) == 0 {
+			// entry sizes around 2^16 (SignatureSize = 16 + data)
+			dl = pick(rng, []int{65519, 65520, 65521, 65536, 65537, 70000})
+		}
 	}
 	n := rng.Intn(5)
 	if rng.Intn(6) == 0 {
@@ -306,11 +310,11 @@ func (c *Ctx) evalDecode(op, class string, in []byte, entry string, match map[st
 
 func init() {
 	checkers["C07"] = checker{
-		rule: "streams from a grammar generator (0..n lists; X.509 lists with any certificate size incl. empty data and any count incl. zero, incl. entries whose bytes are PEM text; SHA-256 lists; externally managed lists; any owners; any order), the repository's .esl files and captured variables, and databases built through Append/Remove/AppendList; each stream is decoded by the implementation (ReadSignatureDatabase over a byte reader and over readers that return one byte, half of the request, or data together with EOF; Unmarshal; repeated ReadSignatureList) in the sandboxed worker and R_C07 (extracted) requires exactly the model's lists and a byte-identical re-encoding, and for operation-built databases (extracted check_c07_built) that the lists the implementation holds encode per the layout to a stream that decodes to an equal database; non-trivial = the model decodes at least one list; distinct by input hash",
+		rule: "streams from a grammar generator (0..n lists; X.509 lists with any certificate size incl. empty data and sizes around 2^16 and any count incl. zero, incl. entries whose bytes are PEM text; SHA-256 lists; externally managed lists; any owners; any order), the repository's .esl files and captured variables, and databases built through Append/Remove/AppendList; each stream is decoded by the implementation (ReadSignatureDatabase over a byte reader and over readers that return one byte, half of the request, or data together with EOF; Unmarshal; repeated ReadSignatureList) in the sandboxed worker and R_C07 (extracted) requires exactly the model's lists and a byte-identical re-encoding, and for operation-built databases (extracted check_c07_built) that the lists the implementation holds encode per the layout to a stream that decodes to an equal database; non-trivial = the model decodes at least one list; distinct by input hash",
 		run:  runC07,
 	}
 	checkers["C08"] = checker{
-		rule: "byte strings near the well-formed language: every truncation point of valid streams (exhaustive per stream), edits of ListSize/HeaderSize/SignatureSize to 0, 15, 16, 27, 28, non-multiples, larger than the data and 2^32-1, unsupported and unknown signature types, trailing garbage, and streams of 2^12..2^22 bytes whose list boundary falls exactly on the power of two followed by a list, garbage or a truncated list; R_C08 (extracted) accepts an implementation success only when the model decodes the same lists from the whole input; non-trivial = mutated input on which the verdict is not trivially 'both reject an empty input' (counted when the input is non-empty); distinct by input hash",
+		rule: "byte strings near the well-formed language: every truncation point of valid streams (exhaustive per stream), edits of ListSize/HeaderSize/SignatureSize to 0, 15, 16, 27, 28, non-multiples, larger than the data and 2^32-1, unsupported and unknown signature types, trailing garbage, lists of 4095..4098 entries (whole, and announcing one more than present), and streams of 2^12..2^22 bytes whose list boundary falls exactly on the power of two followed by a list, garbage or a truncated list; R_C08 (extracted) accepts an implementation success only when the model decodes the same lists from the whole input; non-trivial = mutated input on which the verdict is not trivially 'both reject an empty input' (counted when the input is non-empty); distinct by input hash",
 		run:  runC08,
 	}
 }
@@ -436,6 +440,19 @@ func runC08(c *Ctx) {
 			m[p+16+rng.Intn(12)] ^= 1 << uint(rng.Intn(8))
 		}
 		c.evalDecode("c08_decode", class, m, decodeEntries(rng), match(class))
+	}
+	// lists with thousands of entries: counts around 4096, whole, and announcing one entry more than is present
+	for _, cnt := range []int{4095, 4096, 4097, 4098} {
+		sigs := make([][]byte, cnt)
+		for i := range sigs {
+			sigs[i] = append(make([]byte, 16), randBytes(rng, 32)...)
+		}
+		whole := encList(gSHA256, uint32(28+48*cnt), 0, 48, nil, sigs)
+		c.evalDecode("c08_decode", "many-entries/whole", whole, "read", match("many-entries"))
+		short := encList(gSHA256, uint32(28+48*(cnt+1)), 0, 48, nil, sigs)
+		c.evalDecode("c08_decode", "many-entries/one-announced-too-many", short, "read", match("many-entries"))
+		next, _ := genWfList(rng, 40)
+		c.evalDecode("c08_decode", "many-entries/then-list", append(append([]byte{}, whole...), next...), "read", match("many-entries"))
 	}
 	// large streams whose list boundary falls exactly on a power of two (where
 	// buffer sizes and read limits live), followed by another list, by garbage
